@@ -805,3 +805,151 @@ Proof.
 Qed.
 
 End Shutdown.
+
+(* ---------------------------------------------------------------------------------------------------------- *)
+(* WHAT next() RETURNS IS WHAT THE MAPPED SOURCE HOLDS AT THE CONSUMER'S POSITION (ParallelMapper, in_order=True): the item,
+   the map_fn error, the source's error or the end of the source — in particular an error surfaces exactly at the failing
+   position (after every earlier item has been delivered: C04) and is never replaced by a clean StopIteration, and
+   StopIteration is only ever reported at the true end of the source. *)
+Section Outcome.
+Variable c : cfg.
+Hypothesis Hpm : k_pm c = true.
+Hypothesis Hio : k_inorder c = true.
+
+Definition OutAt (g : gen) : Prop :=
+  match g_c g with
+  | CRel x i => i = g_recv g /\ PItem x = mpay c (g_base g + g_recv g)
+  | CRelErr e i => i = g_recv g /\ PErr e = mpay c (g_base g + g_recv g)
+  | CRelStop => mpay c (g_base g + g_recv g) = PStop
+  | _ => True
+  end.
+
+Definition PO (g : gen) (pos : nat) : Prop := PMinv c g pos /\ OutAt g.
+
+Lemma outat_frame g g' : OutAt g -> g_c g' = g_c g -> g_recv g' = g_recv g -> g_base g' = g_base g -> OutAt g'.
+Proof. unfold OutAt. intros H E1 E2 E3. rewrite E1, E2, E3. exact H. Qed.
+
+Lemma outat_quiet g0 : quiet (g_c g0) -> OutAt g0.
+Proof. unfold OutAt, quiet. destruct (g_c g0); auto; contradiction. Qed.
+
+Lemma rstep_recv m g pos : g_recv (fst (rstep c m g pos)) = g_recv g /\ g_base (fst (rstep c m g pos)) = g_base g.
+Proof. unfold rstep. repeat match goal with |- context [match ?x with _ => _ end] => destruct x end; split; reflexivity. Qed.
+Lemma wstep_recv i m g : g_recv (wstep c i m g) = g_recv g /\ g_base (wstep c i m g) = g_base g.
+Proof. unfold wstep. repeat match goal with |- context [match ?x with _ => _ end] => destruct x end; split; reflexivity. Qed.
+Lemma sstep_recv m g : g_recv (sstep c m g) = g_recv g /\ g_base (sstep c m g) = g_base g.
+Proof.
+  unfold sstep, s_after. repeat match goal with |- context [match ?x with _ => _ end] => destruct x end; cbn;
+    repeat match goal with |- context [match ?x with _ => _ end] => destruct x end; split; reflexivity.
+Qed.
+
+Lemma po_cstep m g pos : PO g pos -> PO (fst (cstep c m g)) pos.
+Proof.
+  intros [P O]. split; [apply pm_cstep; assumption|]. pose proof P as (R & F & C).
+  destruct (g_c g) eqn:Ec.
+  all: try (apply outat_quiet; unfold cstep; rewrite Ec, ?Hpm; cbn; exact I).
+  - (* CIdle *) unfold cstep. rewrite Ec. exact O.
+  - (* CSleep *) unfold cstep, OutAt. rewrite Ec. cbn. exact I.
+  - (* CInit *) unfold cstep, OutAt. rewrite Ec. destruct m; [destruct (g_store g) as [|[v sp] tl]|]; cbn; rewrite ?Ec; exact I.
+  - (* CChk *) apply outat_quiet. unfold cstep. rewrite Ec, Hpm. destruct (g_stop g); cbn; exact I.
+  - (* CChk2 *) apply outat_quiet. unfold cstep. rewrite Ec.
+    destruct (g_mpstop g); [|destruct ((g_done g || negb (r_alive g)) && (g_sem g =? kmax c))]; cbn; exact I.
+  - (* CGet: the consumer takes the entry at its own position *)
+    unfold cstep. rewrite Ec, outq_pm by assumption. destruct m; [|apply outat_quiet; cbn; exact I].
+    destruct (g_q3 g) as [|[p i] tl] eqn:Eq; [unfold OutAt; cbn; rewrite Ec; exact I|]. rewrite set_outq_pm by assumption.
+    pose proof (f_q3 _ _ F) as F6. pose proof (f_q3idx _ _ F) as F7. pose proof (f_scur _ _ F) as F8. pose proof (f_le _ _ F) as F11.
+    rewrite Eq in F6, F7, F8. cbn in F7, F8. injection F7 as Ei F7. inversion F6 as [|? ? Hp F6t]; subst. cbn in Hp.
+    assert (g_term g = false) as Htf.
+    { destruct (g_term g) eqn:Et; [|reflexivity]. destruct (c_term _ _ C Et) as [Ht _]. lia. }
+    pose proof (c_recv _ _ C Htf) as HR. rewrite Ec in HR. cbn in HR. rewrite <- HR in Hp.
+    rewrite Nat.add_0_r in *. unfold OutAt. destruct p as [x| |e]; cbn; repeat split; auto; try lia; try congruence.
+  - (* CRel *) apply outat_quiet. unfold cstep. rewrite Ec. destruct (pop_version (S i) (g_store g)) as [[sp|] rest]; cbn; exact I.
+  - (* CShSet2 *) apply outat_quiet. unfold cstep. rewrite Ec. destruct (after_join_pc c (g <| g_mpstop := true |>) 0) as (p & Ep & [->|[k' ->]]); rewrite Ep; cbn; exact I.
+  - (* CShJoin *)
+    unfold cstep. rewrite Ec. destruct (after_join_pc c g (S k)) as (p & Ep & Hp).
+    destruct m; destruct (stage_alive c g k); try (unfold OutAt; cbn; rewrite Ec; exact I);
+      apply outat_quiet; rewrite Ep; destruct Hp as [->|[k' ->]]; cbn; exact I.
+Qed.
+
+Theorem po_reachable script sched : jt_free c (init script) sched = true ->
+  forall g, cur (run c sched (init script)) = Some g -> PO g (s_pos (run c sched (init script))).
+Proof.
+  intros Hj g Eg. apply (p_reachable c PO); auto.
+  - intros base ff. split; [apply pm_new; assumption|]. unfold OutAt, new_gen. rewrite Hpm. cbn. exact I.
+  - intros g0 pos n [P O]. split; [apply pm_ff, P | exact O].
+  - intros g0 pos p [P O] Hc Hp. split; [apply pm_idle_pc; assumption|]. apply outat_quiet. cbn. destruct Hp as [-> | ->]; exact I.
+  - apply po_cstep.
+  - intros m g0 pos [P O]. split; [apply pm_rstep; assumption|]. destruct (rstep_recv m g0 pos) as [E1 E2].
+    apply (outat_frame g0); auto. apply rstep_c.
+  - intros i m g0 pos [P O]. split; [apply pm_wstep; assumption|]. destruct (wstep_recv i m g0) as [E1 E2].
+    apply (outat_frame g0); auto. apply wstep_c.
+  - intros m g0 pos [P O]. split; [apply pm_sstep; assumption|]. destruct (sstep_recv m g0) as [E1 E2].
+    apply (outat_frame g0); auto. apply sstep_c.
+Qed.
+
+Theorem next_returns_what_is_at_the_position script sched : jt_free c (init script) sched = true ->
+  forall g, cur (run c sched (init script)) = Some g -> OutAt g.
+Proof. intros Hj g Eg. exact (proj2 (po_reachable script sched Hj g Eg)). Qed.
+
+End Outcome.
+
+(* the same for the Prefetcher (identity map) *)
+Section OutcomePF.
+Variable c : cfg.
+Hypothesis Hpf : k_pm c = false.
+
+Definition OutAtPF (g : gen) : Prop :=
+  match g_c g with
+  | CRel x i => i = g_recv g /\ PItem x = spay c (g_base g + g_recv g)
+  | CRelErr e i => i = g_recv g /\ PErr e = spay c (g_base g + g_recv g)
+  | CRelStop => spay c (g_base g + g_recv g) = PStop
+  | _ => True
+  end.
+
+Definition POF (g : gen) (pos : nat) : Prop := PFall c g pos /\ OutAtPF g.
+
+Lemma outatpf_frame g g' : OutAtPF g -> g_c g' = g_c g -> g_recv g' = g_recv g -> g_base g' = g_base g -> OutAtPF g'.
+Proof. unfold OutAtPF. intros H E1 E2 E3. rewrite E1, E2, E3. exact H. Qed.
+
+Lemma pof_cstep m g pos : POF g pos -> POF (fst (cstep c m g)) pos.
+Proof.
+  intros [[H1 H2] O]. split; [split; [apply pf_cstep; auto | eapply pf2_cstep; eauto]|].
+  destruct (g_c g) eqn:Ec.
+  all: try (unfold OutAtPF, cstep; rewrite Ec, ?Hpf; cbn; exact I).
+  - unfold cstep. rewrite Ec. exact O.
+  - unfold OutAtPF, cstep. rewrite Ec. destruct m; [destruct (g_store g) as [|[v sp] tl]|]; cbn; rewrite ?Ec; exact I.
+  - unfold OutAtPF, cstep. rewrite Ec, Hpf. destruct (g_stop g); cbn; exact I.
+  - unfold OutAtPF, cstep. rewrite Ec. destruct (g_mpstop g); [|destruct ((g_done g || negb (r_alive g)) && (g_sem g =? kmax c))]; cbn; exact I.
+  - (* CGet *)
+    unfold cstep. rewrite Ec, outq_pf by assumption. destruct m; [|unfold OutAtPF; cbn; exact I].
+    destruct (g_q1 g) as [|[p i] tl] eqn:Eq; [unfold OutAtPF; cbn; rewrite Ec; exact I|]. rewrite set_outq_pf by assumption.
+    pose proof (p_q _ _ H1) as Q. rewrite Eq in Q. cbn in Q. injection Q as Ei Qt.
+    destruct H2 as [DQ DR DC DI]. rewrite Eq in DQ. inversion DQ as [|? ? Hp DQt]; subst. cbn in Hp.
+    destruct (p_get _ _ H1 (or_introl Ec)) as [Htf _]. pose proof (p_recv _ _ H1 Htf) as HR. rewrite Ec in HR. cbn in HR.
+    rewrite Nat.add_0_r in HR. rewrite <- HR in Hp.
+    unfold OutAtPF. destruct p as [x| |e]; cbn; repeat split; auto; try lia; try congruence.
+  - unfold OutAtPF, cstep. rewrite Ec. destruct (pop_version (S i) (g_store g)) as [[sp|] rest]; cbn; exact I.
+  - unfold OutAtPF, cstep. rewrite Ec. destruct (after_join_pc c (g <| g_stop := true |>) 0) as (p & Ep & [->|[k' ->]]); rewrite Hpf, Ep; cbn; exact I.
+  - unfold OutAtPF, cstep. rewrite Ec. destruct (after_join_pc c (g <| g_mpstop := true |>) 0) as (p & Ep & [->|[k' ->]]); rewrite Ep; cbn; exact I.
+  - unfold cstep. rewrite Ec. destruct (after_join_pc c g (S k)) as (p & Ep & Hp).
+    destruct m; destruct (stage_alive c g k); try (unfold OutAtPF; cbn; rewrite Ec; exact I);
+      unfold OutAtPF; rewrite Ep; destruct Hp as [->|[k' ->]]; cbn; exact I.
+Qed.
+
+Theorem pf_next_returns_what_is_at_the_position script sched : jt_free c (init script) sched = true ->
+  forall g, cur (run c sched (init script)) = Some g -> OutAtPF g.
+Proof.
+  intros Hj g Eg.
+  assert (POF g (s_pos (run c sched (init script)))) as [_ O]; [|exact O].
+  apply (p_reachable c POF); auto.
+  - intros base ff. split; [split; [apply pf_new, Hpf | apply pf2_new, Hpf]|]. unfold OutAtPF, new_gen. rewrite Hpf. cbn. exact I.
+  - intros g0 pos n [[H1 [DQ DR DC DI]] O]. split; [split; [apply pf_ff, H1 | constructor; assumption] | exact O].
+  - intros g0 pos p [[H1 [DQ DR DC DI]] O] Hc Hp. split; [split; [apply pf_idle_pc; auto | constructor; cbn; auto; intros x i Hx; destruct Hp as [->| ->]; discriminate]|].
+    unfold OutAtPF. cbn. destruct Hp as [-> | ->]; exact I.
+  - apply pof_cstep.
+  - intros m g0 pos [[H1 H2] O]. split; [split; [apply pf_rstep; auto | eapply pf2_rstep; eauto]|].
+    destruct (rstep_recv c m g0 pos) as [E1 E2]. apply (outatpf_frame g0); auto. apply rstep_c.
+  - intros i m g0 pos [[H1 H2] O]. rewrite (wstep_pf c i m g0 pos H1). split; [split|]; assumption.
+  - intros m g0 pos [[H1 H2] O]. rewrite (sstep_pf c m g0 pos H1). split; [split|]; assumption.
+Qed.
+
+End OutcomePF.
